@@ -2,7 +2,8 @@
 reachable from given roots.  Discharge is by named idioms over the path conditions that
 dominate the site (interval reasoning over comparisons against constants, constant folding
 for the hash variants, window-inside-gated-length); anything unmatched is reported."""
-from .. import sym, callgraph
+import re
+from .. import sym, callgraph, engine
 from .. import norm
 from ..norm import n, P, C, V, ANY, match, find_all
 from . import layout, common
@@ -397,6 +398,7 @@ def discharge(F, sites, envs):
             continue
         # loop bodies: also walk from loop headers so that sites inside later iterations are seen
         hdrs = {p.blocks[-1] for p in paths if p.end == "loop"}
+        hdrs |= {h for h in S._counting_loops() if any(h in p.blocks for p in paths)}  # loops the walker summarised
         extra = []
         for h in hdrs:
             try:
@@ -716,6 +718,8 @@ def one(F, S, b, p, s, envs):
                     ok_all = False
             if ok_all:
                 return "interval-no-overflow"
+            if cond[1] == "Add" and _bounded_counter(S, b, p, s, cond):
+                return "counter-bounded-by-iterations"
             # relational: a - b with b <= a known
             if cond[1] == "Sub":
                 a_, b_ = cond[2], cond[3]
@@ -880,6 +884,74 @@ def one(F, S, b, p, s, envs):
                     return "exact-size-conversion"
         return None
     return None
+
+
+BOUNDED_ITER = re.compile(r"^(core::slice::(iter::)?(Iter|IterMut|Chunks|ChunksExact|ChunksExactMut|ChunksMut|Windows)|core::ops::Range|core::ops::range::Range)<")
+ADAPTERS = ("core::iter::Copied<", "core::iter::Cloned<", "core::iter::Rev<", "core::iter::Enumerate<", "core::iter::adapters::")
+
+
+def _bounded_counter(S, b, p, s, cond):
+    """`acc + 1` where the usize local acc is initialised to the constant 0 before an iterator-driven loop and its only other
+    assignment is this increment, executed at most once per iteration of a loop over a slice iterator or a usize range: before the
+    k-th increment acc <= k - 1 <= usize::MAX - 1, so the addition cannot overflow."""
+    xs = [cond[2], cond[3]]
+    if C(1) not in xs:
+        return False
+    acc = xs[0] if xs[1] == C(1) else xs[1]
+    if acc[0] != "local" or not p.blocks:
+        return False
+    a = acc[1]
+    h = p.blocks[0]
+    t = b.blocks[h]["term"]
+    if t["t"] != "call" or not (engine.callee_path(t) or "").endswith("::next") or len(t["args"]) != 1:
+        return False
+    ty = b.local_ty(a)
+    if not ty or ty.get("s") != "usize":
+        return False
+    # the iterator: next(&mut it)
+    op = t["args"][0]
+    l0 = (op.get("move") or op.get("copy") or {}).get("l")
+    d0 = b.single_def(l0) if l0 is not None else None
+    for _ in range(4):  # reborrows: _a = &mut *_b; _b = &mut it
+        if d0 is not None and d0[1] != "term" and d0[2].get("rv") == "ref" and d0[2]["place"].get("p") == ["*"]:
+            d0 = b.single_def(d0[2]["place"]["l"])
+    if d0 is None or d0[1] == "term" or d0[2].get("rv") != "ref" or "p" in d0[2]["place"]:
+        return False
+    ity = (b.local_ty(d0[2]["place"]["l"]) or {}).get("s", "")
+    while ity.startswith(ADAPTERS) and "<" in ity:
+        ity = ity.split("<", 1)[1]
+    if not BOUNDED_ITER.match(ity):
+        return False
+    fwd = b.reachable_from(h)
+    L = {x for x in fwd if b.dominates(h, x) and h in b.reachable_from(x)}
+    defs = b.defs().get(a, [])
+    inside = [d for d in defs if d[0] in L]
+    outside = [d for d in defs if d[0] not in L]
+    if len(inside) != 1 or len(outside) != 1 or inside[0][1] == "term":
+        return False
+    o = outside[0]
+    if o[1] == "term" or o[2].get("rv") != "use" or (o[2]["op"].get("const") or {}).get("v") != 0 or not b.dominates(o[0], h):
+        return False
+    # no borrow of acc / projected store
+    for blk in b.blocks:
+        for st in blk["stmts"]:
+            if st.get("rv") in ("ref", "rawptr") and st.get("place", {}).get("l") == a:
+                return False
+    i = inside[0]
+    src = i[2]["op"].get("move") or i[2]["op"].get("copy") if i[2].get("rv") == "use" else None
+    if not src or src.get("p") is None or len(src["p"]) != 1 or src["p"][0].get("f") != 0:
+        return False
+    dt = b.single_def(src["l"])
+    if dt is None or dt[1] == "term" or dt[2].get("rv") != "bin" or not dt[2]["op"].startswith("Add") or dt[0] != s.bb:
+        return False
+    ops = [dt[2]["a"], dt[2]["b"]]
+    is_acc = lambda o_: (o_.get("copy") or o_.get("move") or {}).get("l") == a and "p" not in (o_.get("copy") or o_.get("move") or {})
+    is_one = lambda o_: (o_.get("const") or {}).get("v") == 1
+    if not ((is_acc(ops[0]) and is_one(ops[1])) or (is_acc(ops[1]) and is_one(ops[0]))):
+        return False
+    # the increment is not inside an inner loop: its block cannot reach itself without passing the header
+    inner = b.reachable_from(b.succs(i[0])[0], avoid=(h,)) if b.succs(i[0]) else set()
+    return i[0] not in inner and s.bb not in b.reachable_from(b.succs(s.bb)[0], avoid=(h,))
 
 
 def envs_by(e, envs):
